@@ -469,7 +469,7 @@ fn gen_template(rng: &mut Rng, density: f64) -> JobSpec {
     let k = rng.range(2, 5) as usize;
     let names = pick_names(rng, k);
     let y = |rng: &mut Rng| yields(rng, density);
-    let which = rng.below(14);
+    let which = rng.below(15);
     let text: String = match which {
         0 => {
             // keywords() of an argument list
@@ -584,6 +584,18 @@ fn gen_template(rng: &mut Rng, density: f64) -> JobSpec {
             spec.entry = Entry::Path("/t/main.scss".into());
             String::new()
         }
+        13 => {
+            // both parts of a compound selector extended by several extenders: the extension
+            // algorithm has to trim redundant results, which is where selector identities matter
+            let n = &names;
+            let mut s = format!(".{}.{} {{ p: q; }}\n", n[0], n[1]);
+            for (i, x) in n.iter().enumerate().skip(1) {
+                s.push_str(y(rng));
+                s.push_str(&format!(".x{}-{} {{ @extend .{}, .{}; r{}: s; }}\n", i, x, n[0], n[1], i));
+            }
+            s.push_str(&format!(".{} .{} {{ t: u; }}\n.z {{ @extend .x1-{}; }}\n", n[1], n[0], n[1]));
+            s
+        }
         _ => {
             // global variables and functions listed by meta
             let v: Vec<String> = names.iter().map(|n| format!("${}: 1;", n)).collect();
@@ -600,8 +612,9 @@ fn gen_template(rng: &mut Rng, density: f64) -> JobSpec {
 fn gen_job(rng: &mut Rng, ctx: &Ctx, pools: &Pools, density: f64) -> JobSpec {
     let r = rng.below(100);
     let mut j = if r < 40 {
-        // corpus item, as the suite runs it
-        let idx = *rng.pick(&pools.scss_any);
+        // corpus item, as the suite runs it; every fourth one from the @extend / selector tests
+        let ext_pool: Vec<usize> = pools.scss_any.iter().copied().filter(|&i| ctx.corpus[i].file.starts_with("extend") || ctx.corpus[i].file.starts_with("selector")).collect();
+        let idx = if rng.chance(0.25) && !ext_pool.is_empty() { *rng.pick(&ext_pool) } else { *rng.pick(&pools.scss_any) };
         let it = &ctx.corpus[idx];
         let mut s = JobSpec::default();
         s.entry = Entry::Text(it.input.clone());
@@ -995,7 +1008,7 @@ impl Engine for SchedEngine {
         out.into_iter().map(|d| d.to_json()).collect()
     }
     fn rule(&self) -> String {
-        "seeded runs of 1-4 simulated threads x 1-6 jobs each (jobs: suite inputs, order-sensitive templates over a shared identifier pool [keywords(), unknown named arguments, named-argument evaluation order, maps, module members through @forward show/hide, @extend, @use-with, selector functions, mixin defaults, compound units with user-named units, nested @media merging, map.deep-merge, conflicting @forwards reached through @import], multi-file projects on SimFs, logger scripts; 40% of runs let threads draw from a shared job pool); per run a scheduling policy (serial, random(0.02/0.2/0.5), pct(1/3), latency), per-thread hash key (15% equal to the reference key), heap shift, sim-yield density, H1 on/off; some history jobs fail, are Fs-faulted, or run out of evaluation fuel mid-evaluation (caught panic). 6% of runs are unique-id() runs under adversarial entropy. Every run executes in a process forked for it alone on a deterministic heap. Non-trivial = runs with a context switch inside a compilation or a thread with more than one job; distinct by (case, switch list).".into()
+        "seeded runs of 1-4 simulated threads x 1-6 jobs each (jobs: suite inputs, order-sensitive templates over a shared identifier pool [keywords(), unknown named arguments, named-argument evaluation order, maps, module members through @forward show/hide, @extend, @use-with, selector functions, mixin defaults, compound units with user-named units, nested @media merging, map.deep-merge, conflicting @forwards reached through @import, compound selectors extended by several extenders], multi-file projects on SimFs, logger scripts; 40% of runs let threads draw from a shared job pool); per run a scheduling policy (serial, random(0.02/0.2/0.5), pct(1/3), latency), per-thread hash key (15% equal to the reference key), heap shift, sim-yield density, H1 on/off; some history jobs fail, are Fs-faulted, or run out of evaluation fuel mid-evaluation (caught panic). 6% of runs are unique-id() runs under adversarial entropy. Every run executes in a process forked for it alone on a deterministic heap. Non-trivial = runs with a context switch inside a compilation or a thread with more than one job; distinct by (case, switch list).".into()
     }
     fn assumptions(&self) -> Vec<String> {
         vec![
